@@ -706,6 +706,12 @@ def segs_eq(a, b):
                 conds.append(tobool(sym_eq(p, q)))
             i += 1; j += 1
             continue
+        if isinstance(x, Enc) and isinstance(y, (Lit, Byte)) and one_byte_view(x) is not None:
+            a[i] = one_byte_view(x)
+            continue
+        if isinstance(y, Enc) and isinstance(x, (Lit, Byte)) and one_byte_view(y) is not None:
+            b[j] = one_byte_view(y)
+            continue
         raise Mismatch(f"segments differ structurally at {i}/{j}: {x!r} vs {y!r}")
     if i < len(a) or j < len(b):
         rest = a[i:] or b[j:]
@@ -722,6 +728,19 @@ def segs_eq(a, b):
 
 class Mismatch(Exception):
     pass
+
+
+def one_byte_view(seg):
+    """the single byte of a one-byte primitive encoding as a Byte segment (bool: 01/00; int8/uint8: two's complement),
+    so that it can be compared with a literal byte; None for anything else"""
+    if isinstance(seg, Enc) and len(seg.args) == 1:
+        v = seg.args[0]
+        if seg.codec == ("bool",) and isinstance(v, (bool, SBool)):
+            return Byte(z3.If(tobool(v), z3.IntVal(1), z3.IntVal(0)) if not isinstance(v, bool) else z3.IntVal(int(v)))
+        if seg.codec[0] in ("be", "le") and seg.codec[1] == 1 and isinstance(v, (int, SInt)) and not isinstance(v, bool):
+            t = zint(v)
+            return Byte(z3.If(t < 0, t + 256, t) if seg.codec[2] else t)
+    return None
 
 
 def equalise(ctx, a, b):
@@ -775,6 +794,13 @@ def equalise(ctx, a, b):
                 hit = True
                 break
         if hit:
+            continue
+        # a one-byte segment against a longer literal: split the literal first (pairwise comparison below is by whole segments)
+        if isinstance(x, Lit) and len(x.b) > 1 and (isinstance(y, Byte) or one_byte_view(y) is not None):
+            a[0:1] = [Lit(x.b[:1]), Lit(x.b[1:])]
+            continue
+        if isinstance(y, Lit) and len(y.b) > 1 and (isinstance(x, Byte) or one_byte_view(x) is not None):
+            b[0:1] = [Lit(y.b[:1]), Lit(y.b[1:])]
             continue
         try:
             if (isinstance(x, Raw) and isinstance(y, Lit) or isinstance(x, Lit) and isinstance(y, Raw)) and not last:
